@@ -23,11 +23,14 @@ SDown == IsEvent("Down") /\ Down(E.kind) /\ last' = Logged
 SUp   == IsEvent("Up") /\ Up(E.owner) /\ last' = Logged
 SRehang == IsEvent("Rehang") /\ Rehang(E.owner) /\ last' = Logged
 SLate == IsEvent("LateDisconnect") /\ LateDisconnect /\ last' = Logged
+SClear == IsEvent("DownClear") /\ DownClear(E.owner) /\ last' = Logged
+SRekey == IsEvent("Rekey") /\ Rekey(E.owner) /\ last' = Logged
+SRestart == IsEvent("Restart") /\ Restart /\ last' = Logged
 MonStep == /\ l <= Len(TraceLog) /\ E.ev # "Reset" /\ l' = l + 1
            /\ last' = Logged /\ UNCHANGED <<cls, hist>>
            /\ chain' = IF E.ev = "Rehang" THEN <<"r2">> \o SubSeq(chain, Idx(E.owner), Len(chain)) ELSE chain
 
-TraceNext == Reset \/ (Strict /\ (SDown \/ SUp \/ SRehang \/ SLate)) \/ (~Strict /\ MonStep)
+TraceNext == Reset \/ (Strict /\ (SDown \/ SUp \/ SRehang \/ SLate \/ SClear \/ SRekey \/ SRestart)) \/ (~Strict /\ MonStep)
 TraceSpec == TraceInit /\ [][TraceNext]_tvars
 TraceAccepted == TLCGet("stats").diameter - 1 = Len(TraceLog)
 =============================================================================
